@@ -370,6 +370,7 @@ FEATURES = [
     # Map / Set
     "const m=new Map(); m.set('a',1).set(NaN,K).set(0,'z').set(-0,'nz'); const k={}; m.set(k,J); m.delete('a'); m.set('a',2); out([...m.keys()], m.get(NaN), m.get(0), m.size, m.has({}), m.get(k)); m.forEach((v,key,mm)=>{ if (key===0) mm.delete(NaN) }); out(m.size);",
     "const s=new Set([3,1,3,'3',NaN,NaN,0,-0]); out([...s], s.size, s.has('3'), s.delete(1), s.delete(1), [...s.add(K).add(3)]); const r=[]; for (const v of s){ if (r.length<10) { s.delete(v); s.add(v+'x'.length) ; r.push(v) } } out(r.length>0);",
+    "const ga=[1,2,3,4,5,6]; const gm=Map.groupBy(ga, x => { if (x === 2) ga.length = 3; return x % 2 }); const fa=[1,2,3,4,5,6]; const fr=Array.from(fa, x => { if (x === 2) fa.length = 3; return x * K }); out([...gm], fr);",
     "const m=new Map([[1,'a'],[2,'b'],[3,'c']]); const it=m.entries(); m.delete(2); m.set(4,'d'); out([...it]); const m2=new Map(m); m2.clear(); out(m.size, m2.size, new Map(Object.entries({x:K})).get('x'), Object.fromEntries(m));",
     # strings, template literals, regexp
     "const n=K, t=S; out(`a${n}b${t}c${n+J}`, `${{}}`, `${[1,2]}`, `${null}${undefined}`, `line1\\nline2`.split('\\n').length, String.raw`\\n${n}`, ((s,...v)=>s.raw.join('|')+v.join())`x${n}y\\t${t}z`);",
